@@ -81,6 +81,9 @@ def one_run(parser, matcher, compiler, idg, src, stop, M=None, check_g13=True, c
             res = ("err", [(dict(x.location), str(x), type(x).__name__) for x in e.errors])
         except ParserError as e:
             res = ("stop", (dict(e.location), str(e), type(e).__name__))
+        except Exception as e:
+            # not a parser error: recorded as the result (it then differs from the fresh/solo result and is reported)
+            res = ("crash", type(e).__name__, repr(e)[:160], observe._origin(e))
     idg._vf_drawn = off + sum(1 for d in obs.ids if d[2] == id(idg))      # harness-owned counter kept on the generator
     if M is not None and check_g13 and obs.logs:
         log = obs.logs[-1]
